@@ -349,6 +349,23 @@ type caseT struct {
 	Sigs int    // bit mask over the collected signatures (collection order); -1 = all
 	Ev   string // receipt variant
 	Tx   string // transaction envelope variant
+	Ord  int    // signature collection order (index into orders; 0 = default)
+}
+
+// tgt is the message the case offers proofs for (the kind's target in the base
+// state whose signatures were collected in the case's order).
+func (e *env) tgt(c caseT) *target {
+	if c.Ord == 0 {
+		return e.s.tg[c.Kind]
+	}
+	return e.s.alt[c.Ord][c.Kind]
+}
+
+func (e *env) refsOf(c caseT) map[string]int {
+	if c.Ord == 0 {
+		return e.refs[c.Kind]
+	}
+	return e.refsOrd[c.Ord][c.Kind]
 }
 
 func (c caseT) key(e *env) string {
@@ -356,7 +373,11 @@ func (c caseT) key(e *env) string {
 	for _, i := range c.Corr {
 		ls = append(ls, e.menus[c.Kind][i].Label)
 	}
-	return fmt.Sprintf("%s|%s|sigs=%d|%s|%s", c.Kind, strings.Join(ls, " & "), c.Sigs, c.Ev, c.Tx)
+	k := fmt.Sprintf("%s|%s|sigs=%d|%s|%s", c.Kind, strings.Join(ls, " & "), c.Sigs, c.Ev, c.Tx)
+	if c.Ord > 0 {
+		k += "|collected=" + orderName(c.Ord)
+	}
+	return k
 }
 
 type env struct {
@@ -372,6 +393,7 @@ type env struct {
 	capped bool
 
 	twRefs     map[string]map[string]int
+	refsOrd    map[int]map[string]map[string]int // collection order -> kind -> reference inputs
 	seqSamples []string
 }
 
@@ -491,7 +513,7 @@ func tryApply(c corr, m *model) (ok bool) {
 // input packs the transaction input of a case and says whether it is one of the
 // reference encodings.
 func (e *env) input(c caseT) ([]byte, bool, error) {
-	t := e.s.tg[c.Kind]
+	t := e.tgt(c)
 	m := e.s.reference(e.s.bases[t.Base], t, e.subset(t, c.Sigs))
 	for _, i := range c.Corr {
 		if !tryApply(e.menus[c.Kind][i], m) {
@@ -504,14 +526,14 @@ func (e *env) input(c caseT) ([]byte, bool, error) {
 	if err != nil {
 		return nil, false, err
 	}
-	_, ok := e.refs[c.Kind][string(data)]
+	_, ok := e.refsOf(c)[string(data)]
 	return data, ok, nil
 }
 
 const uploadNonce = 7
 
 func (e *env) proof(c caseT, data []byte) (*evmtypes.TxExecutedProof, *ethtypes.Transaction) {
-	t := e.s.tg[c.Kind]
+	t := e.tgt(c)
 	rel := e.s.valByEth(t.Msg.AssigneeRemoteAddress)
 	o := txOpts{To: &e.s.compassAddr, Nonce: 41, ChainID: e.s.chainID, Signer: rel}
 	if c.Kind == kUpload {
@@ -656,7 +678,7 @@ func (e *env) runCase(c caseT) {
 	if e.capped {
 		return
 	}
-	t := e.s.tg[c.Kind]
+	t := e.tgt(c)
 	data, isRef, err := e.input(c)
 	if err != nil {
 		// the corrupted tree cannot be ABI-encoded at all (e.g. negative uint): nothing to offer
@@ -709,7 +731,7 @@ func (e *env) runCase(c caseT) {
 		}
 		cls = strings.Join(cs, "+")
 	} else if c.Sigs >= 0 && !isRef {
-		cls = "signature-subset"
+		cls = "signature-subset-not-a-prefix-of-the-collected"
 	}
 	if c.Ev != "status=1" {
 		cls += "," + c.Ev
@@ -743,7 +765,11 @@ func (e *env) runCase(c caseT) {
 	sort.Strings(queueDiff)
 	if expect {
 		if !o.Effect || !o.Accepted {
-			e.r.Violate("reject-valid:"+c.Kind, "the reference transaction was not accepted\n"+describe(), rep)
+			sig := "reject-valid:" + c.Kind
+			if n := e.refsOf(c)[string(data)]; c.Kind != kUpload && n < len(t.Sigs) {
+				sig += ":late-signature-prefix-of-the-collected"
+			}
+			e.r.Violate(sig, "the reference transaction was not accepted\n"+describe(), rep)
 			return
 		}
 		e.stats["accepted-valid:"+c.Kind]++
@@ -800,7 +826,7 @@ func (e *env) metrixRecord(ctx sdk.Context, t *target) string {
 // checkValidEffects checks, for an accepted reference transaction, that the
 // effects are the ones of this message only.
 func (e *env) checkValidEffects(c caseT, ctl *snap, o outcome, rep interface{}, describe func() string) {
-	t := e.s.tg[c.Kind]
+	t := e.tgt(c)
 	// other kinds' effects must not appear
 	var queueDiff []string
 	for id := range ctl.Queue {
@@ -843,7 +869,7 @@ func run(r *report.Run, shard, nshards int, replayFile string) {
 	s := newScenario()
 	a, err := abi.JSON(strings.NewReader(world.CompassABI()))
 	must(err)
-	e := &env{s: s, r: r, abi: &a, menus: map[string][]corr{}, refs: map[string]map[string]int{}, ctl: map[string]*snap{}, stats: map[string]int{}, twRefs: map[string]map[string]int{}}
+	e := &env{s: s, r: r, abi: &a, menus: map[string][]corr{}, refs: map[string]map[string]int{}, ctl: map[string]*snap{}, stats: map[string]int{}, twRefs: map[string]map[string]int{}, refsOrd: map[int]map[string]map[string]int{}}
 	e.dl = r.Deadline(150*time.Second, 25*time.Minute)
 	if replayFile != "" {
 		var v report.Violation
@@ -861,12 +887,13 @@ func run(r *report.Run, shard, nshards int, replayFile string) {
 			os.Exit(2)
 		}
 	}
-	r.Rule = "per action type (SubmitLogicCall, UpdateValset, UploadSmartContract, UploadUserSmartContract, CompassHandover; each queued through the real path with elected gas estimate, fees, three signatures, public access data): the reference transaction; every single corruption of the menu (named leaves of the argument tree: selector, consensus valset id / validators / powers / order, every signature component and signature order, relayer, fees, fee payer, ids, deadlines, gas estimate, addresses, payload/bytecode flip-truncate-extend, forward calls, constructor arguments, trailing bytes; plus highest and lowest bit of every 32-byte word of the packed input) with receipt status 1 and 0; all unordered pairs of menu entries (thorough); every subset of the collected signatures (prefixes and non-prefixes), singles on every proper prefix (thorough); receipt variants {1, 0, absent, undecodable, success without the deployment event}; re-use sequences (same tx for the content-identical twin in the same / next block, twin first, evidence for an attested message). Each case = 3 real MsgAddEvidence txs + the application's end-block on a fork; distinct = distinct cases"
+	r.Rule = "per action type (SubmitLogicCall, UpdateValset, UploadSmartContract, UploadUserSmartContract, CompassHandover; each queued through the real path with elected gas estimate, fees, three signatures, public access data): the reference transaction; every single corruption of the menu (named leaves of the argument tree: selector, consensus valset id / validators / powers / order, every signature component and signature order, relayer, fees, fee payer, ids, deadlines, gas estimate, addresses, payload/bytecode flip-truncate-extend, forward calls, constructor arguments, trailing bytes; plus highest and lowest bit of every 32-byte word of the packed input) with receipt status 1 and 0; all unordered pairs of menu entries (thorough); every subset of the collected signatures (prefixes and non-prefixes of the COLLECTION order) for each of the 6 orders in which three validators can sign (default = valset order, reversed, rotated, ...), singles on every proper prefix of the default, reversed and rotated collection (consensus leaves in quick, all named leaves in thorough); receipt variants {1, 0, absent, undecodable, success without the deployment event}; re-use sequences (same tx for the content-identical twin in the same / next block, twin first, evidence for an attested message). Each case = 3 real MsgAddEvidence txs + the application's end-block on a fork; distinct = distinct cases"
 	r.Assumptions = []string{
 		"accepted = the message left the queue and the end-block's attestation loop logged no error; for SubmitLogicCall this is the only success observable (the attester changes no store besides queue, processed-tx set and relay metrics), for the other types the store-level success effect (snapshot live on chain / deployment advanced / user deployment active / contract activated) is checked as well",
 		"weaker reading: on a refused proof the message may be removed (not verified, failed receipt) or stay queued (attester error); the processed-transaction mark and the relayer's metrix history record are counted as bookkeeping, not as success effects (the record carries success=true for every TxExecutedProof, measured in coverage.metrix_record_on_rejected)",
 		"a reference transaction with a successful receipt that lacks the ContractDeployed event is expected to be refused for UploadUserSmartContract (no address to record)",
 		"transaction envelope variants the statement does not mention (other `to` address, other chain id, sender other than the relayer) are measured (coverage.envelope) and not judged; legacy envelope and another nonce must be accepted",
+		"'prefix of the collected signatures' is read in collection order (the order of the messages' SignData, i.e. of the MsgAddMessagesSignatures transactions), not in valset order; the signatures are collected in all 6 orders of the three validators",
 		"validator set of the consensus argument = snapshot named in the message's public access data (valset live on the target chain), powers floor(2^32*share/total); three validators with shares 3:2:1",
 		"'used transaction' = a transaction hash that was the winning evidence of an earlier end-block whose attestation result was committed",
 	}
@@ -970,6 +997,33 @@ func (e *env) prepare(k string) {
 		}
 	}
 	e.menus[k] = e.menu(k)
+	if k == kUpload {
+		return
+	}
+	for oi := 1; oi < len(orders); oi++ {
+		at := e.s.alt[oi][k]
+		if at == nil || at.ID != t.ID || len(at.Sigs) != len(t.Sigs) {
+			panic(fmt.Sprintf("%s: no target for collection order %s", k, orderName(oi)))
+		}
+		for i, sd := range at.Sigs {
+			if want := e.s.w.Vals[orders[oi][i]]; !strings.EqualFold(sd.ExternalAccountAddress, want.EthAddr()) {
+				panic(fmt.Sprintf("%s: collection order %s not realised", k, orderName(oi)))
+			}
+		}
+		if e.refsOrd[oi] == nil {
+			e.refsOrd[oi] = map[string]map[string]int{}
+		}
+		r := map[string]int{}
+		for n := 1; n <= len(at.Sigs); n++ {
+			d, err := e.s.reference(e.s.bases[at.Base], at, at.Sigs[:n]).pack(e.abi)
+			must(err)
+			r[string(d)] = n
+		}
+		if len(r) != len(at.Sigs) {
+			panic("signature prefixes do not give distinct encodings")
+		}
+		e.refsOrd[oi][k] = r
+	}
 }
 
 func (e *env) enumerate() []caseT {
@@ -1012,6 +1066,28 @@ func (e *env) enumerate() []caseT {
 						continue
 					}
 					out = append(out, caseT{Kind: k, Corr: []int{i}, Sigs: 1<<p - 1, Ev: "status=1"})
+				}
+			}
+		}
+		if k != kUpload {
+			// other signature collection orders: every subset of the collected
+			// signatures; the oracle is the same (non-empty prefix of the collection)
+			for oi := 1; oi < len(orders); oi++ {
+				for mask := 0; mask < 1<<len(t.Sigs); mask++ {
+					for _, ev := range []string{"status=1", "status=0"} {
+						out = append(out, caseT{Kind: k, Sigs: mask, Ev: ev, Ord: oi})
+					}
+				}
+				// singles on the proper prefixes of the reversed and the rotated collection
+				if oi <= 2 {
+					for p := 1; p < len(t.Sigs); p++ {
+						for i := 0; i < n; i++ {
+							if e.menus[k][i].Word || (!thorough && !strings.HasPrefix(e.menus[k][i].Label, "consensus.")) {
+								continue
+							}
+							out = append(out, caseT{Kind: k, Corr: []int{i}, Sigs: 1<<p - 1, Ev: "status=1", Ord: oi})
+						}
+					}
 				}
 			}
 		}
